@@ -22,6 +22,7 @@ import (
 	"bytes"
 	"fmt"
 	"io"
+	"strings"
 
 	"golang.org/x/crypto/blake2b"
 	"golang.org/x/crypto/blake2s"
@@ -129,12 +130,12 @@ func (r *reader) read(n int) string {
 	var k int
 	var err error
 	if p, v, _ := vf.Protect(func() { k, err = r.x.Read(buf) }); p {
-		return fmt.Sprintf("Read panics: %v", v)
+		return fmt.Sprintf("Read panics | %v", v)
 	}
 	left := r.total - r.pos
 	if left == 0 {
 		if k != 0 || err != io.EOF {
-			return fmt.Sprintf("Read on exhausted XOF returned (%d,%v), want (0,EOF)", k, err)
+			return fmt.Sprintf("Read on exhausted XOF does not return (0,EOF) | got (%d,%v)", k, err)
 		}
 		return ""
 	}
@@ -143,17 +144,17 @@ func (r *reader) read(n int) string {
 		max = left
 	}
 	if k < 0 || uint64(k) > max {
-		return fmt.Sprintf("Read(%d) returned n=%d with only %d bytes left of the declared length", n, k, left)
+		return fmt.Sprintf("Read returns more bytes than requested or than the declared length allows | Read(%d) returned n=%d with %d bytes left", n, k, left)
 	}
 	if max > 0 && k == 0 {
-		return fmt.Sprintf("Read(%d) made no progress (n=0, err=%v) with %d bytes left", n, err, left)
+		return fmt.Sprintf("Read makes no progress before the declared length is produced | Read(%d) = (0,%v) with %d bytes left", n, err, left)
 	}
 	if !bytes.Equal(buf[:k], r.want(r.pos, k)) {
 		return "output bytes differ from the BLAKE2X construction"
 	}
 	r.pos += uint64(k)
 	if err != nil && !(err == io.EOF && r.pos == r.total) {
-		return fmt.Sprintf("Read(%d) returned error %v before the declared length was produced", n, err)
+		return fmt.Sprintf("Read returns an error before the declared length is produced | Read(%d) error %v at position %d", n, err, r.pos)
 	}
 	return ""
 }
@@ -186,6 +187,8 @@ func (r *reader) drain(n int, limit uint64) string {
 	}
 	return ""
 }
+
+func cut(m string) string { cat, _, _ := strings.Cut(m, " | "); return cat }
 
 func pattern(c *vf.Ctx, label string, n int) []byte { return c.Bytes(label, 0, n) }
 
@@ -273,7 +276,8 @@ func g1(c *vf.Ctx, a *xalg, path string, reduced bool) {
 			for k, v := range extra {
 				d[k] = v
 			}
-			c.Violation(a.class(what+" ["+path+"]"), d)
+			cat, _, _ := strings.Cut(m, " | ")
+			c.Violation(a.class(what+": "+cat+" ["+path+"]"), d)
 		}
 		// one exact read, then EOF
 		r, m := mk(false)
@@ -402,7 +406,10 @@ func g2(c *vf.Ctx, a *xalg) {
 				}
 				return "Reset"
 			},
-			Class: func(h []xop, mis string) string { return a.class("history: " + mis) },
+			Class: func(h []xop, mis string) string {
+				cat, _, _ := strings.Cut(mis, " | ")
+				return a.class("history: " + cat)
+			},
 			Run: func(hist []xop) (string, bool, string) {
 				x, err := a.newXOF(cf.size, cf.key)
 				if err != nil {
@@ -449,7 +456,7 @@ func g2(c *vf.Ctx, a *xalg) {
 						}
 					case 'Z':
 						if p, v, _ := vf.Protect(func() { cur.x.Reset() }); p {
-							return "", true, fmt.Sprintf("Reset panics: %v", v)
+							return "", true, fmt.Sprintf("Reset panics | %v", v)
 						}
 						// Reset returns to the keyed initial state: the base message is gone too
 						cur = mkReader(cur.x, 0, 0)
@@ -459,7 +466,7 @@ func g2(c *vf.Ctx, a *xalg) {
 					case 'C', 'K':
 						var y xofI
 						if p, v, _ := vf.Protect(func() { y = a.clone(cur.x) }); p {
-							return "", true, fmt.Sprintf("Clone panics: %v", v)
+							return "", true, fmt.Sprintf("Clone panics | %v", v)
 						}
 						other := mkReader(y, written, cur.pos)
 						if o.kind == 'C' {
@@ -534,7 +541,7 @@ func g3(c *vf.Ctx, a *xalg) {
 			pre := uint64(0)
 			if f.skipNodes >= 2 {
 				if m := r.read(2 * a.node); m != "" {
-					c.Violation(a.class("far position: "+m), map[string]any{"declared_length": f.size})
+					c.Violation(a.class("far position: "+cut(m)), map[string]any{"declared_length": f.size, "mismatch": m})
 					return
 				}
 				pre = 2
@@ -546,7 +553,7 @@ func g3(c *vf.Ctx, a *xalg) {
 			r.pos = f.skipNodes * N
 			c.Eval(1)
 			if m := r.drain(chunk, 4*N); m != "" {
-				c.Violation(a.class("far position: "+m), map[string]any{"declared_length": f.size, "start_node": f.skipNodes, "chunk": chunk})
+				c.Violation(a.class("far position: "+cut(m)), map[string]any{"declared_length": f.size, "start_node": f.skipNodes, "chunk": chunk, "mismatch": m})
 				return
 			}
 			c.Nontrivial(fmt.Sprintf("G3/%s/%d/%d/%d", a.name, f.size, f.skipNodes, chunk))
@@ -567,7 +574,7 @@ func g3(c *vf.Ctx, a *xalg) {
 		r := &reader{a: a, x: x, total: a.unkStop, want: func(from uint64, k int) []byte { return want[from : from+uint64(k)] }}
 		c.Eval(1)
 		if m := r.drain(chunk, uint64(n)); m != "" {
-			c.Violation(a.class("long unknown-length read: "+m), map[string]any{"chunk": chunk, "position": r.pos})
+			c.Violation(a.class("long unknown-length read: "+cut(m)), map[string]any{"chunk": chunk, "position": r.pos, "mismatch": m})
 		}
 		c.Nontrivial(fmt.Sprintf("G3long/%s/%d", a.name, chunk))
 	}
